@@ -14,6 +14,7 @@ func init() {
 		Explain: "RPC splitting decided as exhaustiveness, grow-then-check discipline and gating: (R11.1) on the slow path of RPC.split every wire field of pb.RPC and pb.ControlMessage (enumerated from the struct tags on every run) is both read from the receiver and stored into the fragment being built; sub-messages rebuilt for a new fragment keep their non-split fields (every ControlIHave literal carries the TopicID of the IHAVE being split); copyRPC copies the whole struct and the control message; (R11.2) in the gossipsub router queue pushes happen only in doSendRPC, which is called only by sendRPC; (R11.3) sendRPC sends an RPC unsplit only behind `Size() < maxMessageSize` evaluated after all piggybacking, sends a fragment only behind the false edge of `Size() > maxMessageSize`, drops (and reports) on the true edge, and splits with the same limit; (R11.4) doDropRPC traces DROP_RPC and re-queues the control part; (R11.5) grow-then-check: every statement that adds content to the fragment (append / set) is followed on every path by a `Size() > limit` test before the next growth or yield, the overflow branch removes exactly what was added, yields, and restarts the fragment with that element; every yield result is honoured; a non-empty remainder is yielded at the end; (R11.6) no empty RPC is produced: every direct call of the iterator's consumer is evaluated only when the fragment's Size() is not zero; (R11.3, extended) inside the split loop sendRPC drops exactly the oversized fragment (never the RPC being split, whose control part the lazy iterator is still reading) and the loop over the fragments has no early exit. (audit round) R11.6 judges emptiness by content: the guard is a predicate reading messages, subscriptions and all five control lists; (R11.7) the hello packet is split or size-tested before it is written (known finding F37). (R11.8) pushControl stores only where nothing is pending or merges with the pending GRAFT/PRUNE. NOT decided: that fragments fit the limit and carry each element exactly once and in order as an arithmetic fact per input (Size() arithmetic and slice bookkeeping).",
 		Assume:  []string{"gogo-generated Size() is exact", "struct tags `protobuf:` mark exactly the wire fields"},
 		Mutants: []Mutant{
+			{Name: "skip-wrapper-answers-false", File: "pubsub.go", Old: "\t\tyield := func(r RPC) bool { return !r.hasContent() || yieldRPC(r) }", New: "\t\tyield := func(r RPC) bool { return r.hasContent() && yieldRPC(r) }", Expect: "R11.6"},
 			{Name: "pushcontrol-overwrites", File: "gossipsub.go", Old: "\t\tif pending, ok := gs.control[p]; ok && pending != ctl {\n\t\t\tctl.Graft = append(pending.Graft, ctl.Graft...)\n\t\t\tctl.Prune = append(pending.Prune, ctl.Prune...)\n\t\t}\n", New: "", Expect: "R11.8"},
 			{Name: "pushcontrol-merges-grafts-only", File: "gossipsub.go", Old: "\t\t\tctl.Prune = append(pending.Prune, ctl.Prune...)\n", New: "", Expect: "R11.8"},
 			{Name: "split-drops-idontwant", File: "pubsub.go", Old: "\t\t\tfor _, idontwant := range ctl.GetIdontwant() {", New: "\t\t\tfor _, idontwant := range []*pb.ControlIDontWant(nil) {", Expect: "R11.1"},
